@@ -754,6 +754,16 @@ func propC18(run *Run, n int) {
 			if a.K == KVoid || b.K == KVoid {
 				continue
 			}
+			if r.Chance(1, 4) {
+				// RFC 7386 takes an ARRAY value verbatim, nulls included: nulls inside arrays (as elements, or as members
+				// of objects that sit inside arrays) are within the property although the documents are not null-free
+				if nullsIntoArrays(r, b, false) > 0 {
+					run.Count("merge:nulls-inside-arrays")
+				}
+				if r.Chance(1, 2) {
+					nullsIntoArrays(r, a, false)
+				}
+			}
 			addC18MergeCase(run, mm.m, mm.label, a, b)
 		}
 		if r.Chance(1, 40) {
@@ -863,6 +873,36 @@ func addV1ReadMergeTextCase(run *Run, p, t *Val) {
 }
 
 // c18Pair: mostly objects / arrays at the root so that the paths are not empty
+// nullsIntoArrays puts null elements into arrays, and null members into objects that sit inside arrays
+func nullsIntoArrays(r *Rng, v *Val, inArray bool) int {
+	n := 0
+	switch v.K {
+	case KArr:
+		for _, e := range v.A {
+			n += nullsIntoArrays(r, e, true)
+		}
+		if r.Chance(1, 2) {
+			i := r.Intn(len(v.A) + 1)
+			v.A = append(v.A[:i], append([]*Val{VNull()}, v.A[i:]...)...)
+			n++
+		}
+	case KObj:
+		ks := make([]string, 0, len(v.O))
+		for k := range v.O {
+			ks = append(ks, k)
+		}
+		sort.Strings(ks)
+		for _, k := range ks {
+			n += nullsIntoArrays(r, v.O[k], inArray)
+		}
+		if inArray && r.Chance(1, 3) {
+			v.O["nul"] = VNull()
+			n++
+		}
+	}
+	return n
+}
+
 func c18Pair(r *Rng, cfg GenCfg) (*Val, *Val) {
 	a, b := cfg.Pair(r)
 	if r.Chance(1, 2) && a.K != KObj && a.K != KArr {
